@@ -305,11 +305,55 @@ func admissible(toks []tok, vals []string, cs, strict bool) (path string, ok boo
 		}
 		return strings.ToLower(s)
 	}
-	fp, fs := fold(path), fold(skel.String())
+	// the folded path, built token by token, with the owner of every byte: the index of the literal token it comes from,
+	// or -1 for a byte of a value. An occurrence of a literal is the literal's own ("native") when all its bytes come from
+	// one literal token; every other occurrence is an additional one, created by the values (also by empty ones, which
+	// let the neighbouring literals touch).
+	var fpb strings.Builder
+	var owner []int
+	vi = 0
+	for k, t := range toks {
+		piece, own := "", -1
+		if t.Kind == 0 {
+			piece, own = fold(t.Lit), k
+		} else {
+			piece = fold(vals[vi])
+			vi++
+		}
+		fpb.WriteString(piece)
+		for range len(piece) {
+			owner = append(owner, own)
+		}
+	}
+	fp := fpb.String()
+	// additional(s, sub, bounded): does sub occur in s (a prefix of fp) other than inside one literal token? bounded: only
+	// occurrences that end the path or stand in front of a slash count
+	additional := func(s, sub string, bounded bool) bool {
+		if sub == "" {
+			return false
+		}
+		for i := 0; i+len(sub) <= len(s); i++ {
+			if s[i:i+len(sub)] != sub {
+				continue
+			}
+			if bounded && !(i+len(sub) == len(s) || s[i+len(sub)] == '/') {
+				continue
+			}
+			first := owner[i]
+			native := first >= 0
+			for k := i; k < i+len(sub); k++ {
+				native = native && owner[k] == first
+			}
+			if !native {
+				return true
+			}
+		}
+		return false
+	}
 	for j, t := range toks {
 		if t.Kind != 0 && j+1 < len(toks) {
 			L := fold(toks[j+1].Lit)
-			if countOverlap(fp, L) != countOverlap(fs, L) {
+			if additional(fp, L, false) {
 				return path, false, false
 			}
 			// where the pattern makes the literal's trailing slash optional (end of the pattern, or in front of an optional
@@ -318,15 +362,15 @@ func admissible(toks []tok, vals []string, cs, strict bool) (path string, ok boo
 				// (only where it can be that spelling: at the end of the path or in front of a slash - "/ab" is not a
 				// spelling of the literal "/a/")
 				T := strings.TrimRight(L, "/")
-				if T != "" && countBounded(fp, T) != countBounded(fs, T) {
+				if T != "" && additional(fp, T, true) {
 					return path, false, false
 				}
 				// without StrictRouting a pattern that ends in a slash IS the pattern without it ("/:p-a/" is "/:p-a"):
 				// there the literal is the slash-less text itself, and any further occurrence of it is an additional one
-				if T != "" && !strict && j+2 == len(toks) && countOverlap(strings.TrimRight(fp, "/"), T) != countOverlap(strings.TrimRight(fs, "/"), T) {
+				if T != "" && !strict && j+2 == len(toks) && additional(strings.TrimRight(fp, "/"), T, false) {
 					return path, false, false
 				}
-				if T != "" && (t.Kind == '*' || t.Kind == '+') && countOverlap(fp, T) != countOverlap(fs, T) {
+				if T != "" && (t.Kind == '*' || t.Kind == '+') && additional(fp, T, false) {
 					slashless = true
 				}
 			}
